@@ -24,7 +24,7 @@ ASSUMPTIONS = ['an operation may return a valid object or raise ValueError / Typ
 EXPLANATION = 'explicit-state BFS over operation sequences on live objects; invariant on every reachable object'
 
 TINY = 5e-324
-MAGS = [TINY, 1e-3, 1.0, 1e3]
+MAGS = [TINY, 1e-3, 1, 1e3]               # 1 is an int on purpose
 NUMS = [-2, -1, 0, 0.5, 2]
 FAMILIES = {
     'Length': ['Length', 'Surface'],
